@@ -53,7 +53,10 @@ def check_callback(ctx, fn, role):
     qparam = fn.args.args[0].arg
     calls = _traversal_calls(fn)
     ctx.count('callbacks')
-    p1, p2, p3 = Obj('Parameter', value='?', alias=None), Obj('Parameter', value='?', alias=None), Obj('Parameter', value='?', alias=None)
+    # `? as x` carries an alias, `(?)` the parentheses mark: both belong to the place in the statement, not to the placeholder
+    al_ = Obj('Identifier', parts=['x'], alias=None, parentheses=False)
+    p1, p2, p3 = Obj('Parameter', value='?', alias=al_, parentheses=False), Obj('Parameter', value='?', alias=None, parentheses=True), Obj('Parameter', value='?', alias=None,
+                                                                                                                                             parentheses=False)
     visits = [Obj('Select'), Obj('Identifier', parts=['a']), p1, Obj('BinaryOperation', op='=', args=[]), p2, Obj('Constant', value=5), Obj('Function', op='f'), p3]
     log = []
 
@@ -71,7 +74,8 @@ def check_callback(ctx, fn, role):
                 group_by=None, having=None, order_by=None, limit=None, offset=None, cte=None)
     stubs = {'query_traversal': traverse, 'utils.query_traversal': traverse, 'copy.deepcopy': lambda it, x: list(x) if isinstance(x, list) else x,
              'deepcopy': lambda it, x: list(x) if isinstance(x, list) else x, 'copy.copy': lambda it, x: list(x) if isinstance(x, list) else x,
-             'ast.Constant': lambda it, v, *a, **k: Obj('Constant', value=v), 'Constant': lambda it, v, *a, **k: Obj('Constant', value=v)}
+             'ast.Constant': lambda it, v, *a, **k: Obj('Constant', value=v, alias=k.get('alias'), parentheses=k.get('parentheses', False)),
+             'Constant': lambda it, v, *a, **k: Obj('Constant', value=v, alias=k.get('alias'), parentheses=k.get('parentheses', False))}
     it = Interp.for_file(ctx.src, UTILS, {'Parameter': set(), 'Constant': set()}, stubs)
     values = ["O'Brien", 5, 'a\\b "q" %s']
     caller_values = list(values)
@@ -112,6 +116,12 @@ def check_callback(ctx, fn, role):
                line=fn.lineno, witness='select ?, ? -- with values [1, 2]')
         ctx.ob('C12.same-walker', f'{cons}:replaces-by-Constant', all(isinstance(r, Obj) and r.kind == 'Constant' for r in handled),
                f'{cons}: a placeholder is not replaced by Constant(<value>)', file=file, line=fn.lineno)
+        kept = [(isinstance(r, Obj) and r.attrs.get('alias') is p.attrs.get('alias') and bool(r.attrs.get('parentheses')) == bool(p.attrs.get('parentheses')))
+                for r, p in zip(handled, params)]
+        ctx.ob('C12.same-walker', f'{cons}:keeps-alias-and-parentheses', all(kept) and len(kept) == 3,
+               f'{cons}: the Constant put in place of a placeholder does not carry the placeholder\'s alias / parentheses mark ({kept}): `select ? as x` bound with 1 must '
+               f'plan as `select 1 as x` (it plans as `select 1`), `a in (?)` as `a in (1)` (it becomes `a IN 1`)', file=file, line=fn.lineno,
+               witness='prepare "select ? as x from t where a in (?)", execute with [1, 2]')
         ctx.ob('C12.private-values', cons, caller_values == values,
                f'{cons} consumes the caller\'s value list (left: {caller_values}): a second execution (or the caller) sees a consumed list', file=file, line=fn.lineno)
         ctx.ob('C12.same-walker', f'{cons}:returns-statement', res is query, f'{cons} must return the statement it filled', file=file, line=fn.lineno)
